@@ -28,7 +28,8 @@ NEGATIVE = [
     # cfg suffix, invariant TLC must refute, meaning
     ("_direct", "DestPrevOrNew", "mutant design: File::create(dest) and write in place"),
     ("_copy", "DestPrevOrNew", "mutant design: persist replaced by copy + remove"),
-    ("_ascoded", "DestPrevOrNew", "code deviation: compact() skips a source file whose read fails"),
+    ("_ascoded", "DestPrevOrNew", "deviation: compact() skips a source file whose read fails (I/O errors until 131a1c3; non-I/O errors still)"),
+    ("_dirtyflush", "DestPrevOrNew", "code deviation: compact() of a session with pending changes first flushes them in place into dest"),
     ("_stricterr", "ErrLeavesPrev", "code deviation: compact() can return Err after its rename (reopen fails)"),
 ]
 
@@ -39,6 +40,9 @@ def sig(b):
     rec = b.get("rec") or {}
     fsys = r.get("fsys", "")
     fam = "read" if fsys in ("read", "pread64", "readv", "lseek") else fsys
+    if rec.get("ev") in ("Write", "Open", "Trunc"):
+        # P3 is about the system-call pattern of the operation, whatever fault (if any) the run carried
+        return {"op": r.get("op"), "fkind": "-", "fsys_family": "-", "ev": rec.get("ev"), "why": why, "fault_phase": "-", "exit": "-"}
     return {"op": r.get("op"), "fkind": r.get("fkind"), "fsys_family": fam, "ev": rec.get("ev"), "why": why,
             "fault_phase": b.get("fault_phase", "?"), "exit": b.get("exit", "?")}
 
@@ -69,7 +73,7 @@ def annotate(bad, trace):
 
 
 def run(ctx, cases_override=None):
-    ctx.mc("MC_AtomicWrite", timeout=600, allow_uncovered=("B_CopyOpen", "B_Copy", "B_CopyRm"))
+    ctx.mc("MC_AtomicWrite", timeout=600, allow_uncovered=("B_CopyOpen", "B_Copy", "B_CopyRm", "C_Flush"))
     refuted = []
     for suffix, inv, meaning in NEGATIVE:
         rc, text = ctx.tlc("MC_AtomicWrite", "MC_AtomicWrite" + suffix, workers=2, timeout=300)
